@@ -105,3 +105,61 @@ pub fn simple_single(id: &str, location: Location) -> Arc<Single> {
         dimens,
     })
 }
+
+// ---------------------------------------------------------------------------------------------
+// time formatting (RFC3339, UTC) without external crates
+// ---------------------------------------------------------------------------------------------
+
+/// Base timestamp used by generated pragmatic problems: 2020-01-01T00:00:00Z.
+pub const T0: i64 = 1_577_836_800;
+
+pub fn fmt_time(secs: i64) -> String {
+    let days = secs.div_euclid(86_400);
+    let rem = secs.rem_euclid(86_400);
+    let (h, m, s) = (rem / 3600, (rem % 3600) / 60, rem % 60);
+    // civil from days (Howard Hinnant)
+    let z = days + 719_468;
+    let era = z.div_euclid(146_097);
+    let doe = z.rem_euclid(146_097);
+    let yoe = (doe - doe / 1460 + doe / 36_524 - doe / 146_096) / 365;
+    let y = yoe + era * 400;
+    let doy = doe - (365 * yoe + yoe / 4 - yoe / 100);
+    let mp = (5 * doy + 2) / 153;
+    let d = doy - (153 * mp + 2) / 5 + 1;
+    let mo = if mp < 10 { mp + 3 } else { mp - 9 };
+    let y = if mo <= 2 { y + 1 } else { y };
+    format!("{y:04}-{mo:02}-{d:02}T{h:02}:{m:02}:{s:02}Z")
+}
+
+/// Parses the RFC3339 UTC subset produced by `fmt_time` (and by the solution writer).
+pub fn parse_time(s: &str) -> Option<i64> {
+    let b = s.as_bytes();
+    if b.len() < 20 {
+        return None;
+    }
+    let num = |r: std::ops::Range<usize>| s.get(r)?.parse::<i64>().ok();
+    let (y, mo, d, h, mi, se) = (num(0..4)?, num(5..7)?, num(8..10)?, num(11..13)?, num(14..16)?, num(17..19)?);
+    // days from civil
+    let y2 = if mo <= 2 { y - 1 } else { y };
+    let era = y2.div_euclid(400);
+    let yoe = y2.rem_euclid(400);
+    let mp = if mo > 2 { mo - 3 } else { mo + 9 };
+    let doy = (153 * mp + 2) / 5 + d - 1;
+    let doe = yoe * 365 + yoe / 4 - yoe / 100 + doy;
+    let days = era * 146_097 + doe - 719_468;
+    let mut t = days * 86_400 + h * 3600 + mi * 60 + se;
+    // offset suffix
+    let tail = &s[19..];
+    let tail = tail.trim_start_matches(|c: char| c == '.' || c.is_ascii_digit());
+    if tail == "Z" || tail == "z" {
+        return Some(t);
+    }
+    if tail.len() == 6 && (tail.starts_with('+') || tail.starts_with('-')) {
+        let oh = tail[1..3].parse::<i64>().ok()?;
+        let om = tail[4..6].parse::<i64>().ok()?;
+        let off = oh * 3600 + om * 60;
+        t += if tail.starts_with('+') { -off } else { off };
+        return Some(t);
+    }
+    None
+}
